@@ -10,6 +10,7 @@ pub mod c12;
 pub mod c14;
 pub mod c31;
 pub mod c32;
+pub mod c33;
 pub mod c36;
 
 pub fn registry() -> &'static [Check] {
@@ -24,6 +25,7 @@ pub fn registry() -> &'static [Check] {
         Check { meta: &c14::META, run: c14::run, shards: (16, 16) },
         Check { meta: &c31::META, run: c31::run, shards: (8, 16) },
         Check { meta: &c32::META, run: c32::run, shards: (16, 16) },
+        Check { meta: &c33::META, run: c33::run, shards: (16, 16) },
         Check { meta: &c36::META, run: c36::run, shards: (8, 16) },
     ];
     R
